@@ -260,6 +260,9 @@ fn run_adjust(r: &mut Rng, n: u64) {
     adjust_case("x1", &[t(0,0,0,0), t(0,8,0,8), t(0,12,0,12)], &[t(0,0,0,0), t(0,5,0,10)]);
     // a range token split by an adjustment boundary keeps its original position in both pieces
     adjust_case("x2", &[Tok { dl: 0, dc: 0, sl: 3, sc: 4, src: 1, name: 2, range: true }], &[t(0,0,0,0), t(0,20,0,10)]);
+    // far-end positions (2^31 and above) next to ordinary ones, under an identity adjustment: the result is still ordered as unsigned numbers
+    adjust_case("x3", &[t(0,10,0,10), t(0,3_000_000_000,0,20), t(0,2_147_483_648,0,15)], &[t(0,0,0,0)]);
+    adjust_case("x4", &[t(0,10,0,1), t(3_000_000_000,0,0,2), t(2_147_483_647,5,0,3)], &[t(0,0,0,0)]);
     for i in 0..n {
         // original side: any source / name / range flag; adjustment side: keys in original coordinates
         let mut mk = |r: &mut Rng, by_src: bool| -> Vec<Tok> { let k = r.below(6); let wide = r.below(4) == 0; (0..k).map(|j| { let key = (r.below(3) as u32, r.below(if wide { 30 } else { 6 }) as u32); let other = (r.below(3) as u32, r.below(if wide { 30 } else { 8 }) as u32 + j as u32);
